@@ -150,6 +150,18 @@ pub fn replay(path: &str) -> i32 {
         eprintln!("no case in {path}");
         return 2;
     };
+    // a run that never returns is the violation "the operation never completed"
+    {
+        let prop = case.prop.clone();
+        let path = path.to_string();
+        let secs: u64 = std::env::var("VERIF_REPLAY_TIMEOUT").ok().and_then(|s| s.parse().ok()).unwrap_or(60);
+        std::thread::spawn(move || {
+            std::thread::sleep(Duration::from_secs(secs));
+            println!("# the run did not return within {secs}s (synchronous spin or deadlock)");
+            println!("VIOLATION property={prop} replay={path}");
+            std::process::exit(1);
+        });
+    }
     let out = run_case(&case);
     let oracle = v["expect"]["oracle"].as_str().unwrap_or("");
     let tag = v["expect"]["tag"].as_str().unwrap_or("");
